@@ -414,11 +414,27 @@ fn for_each_end(b: &Built, g: &mut Inner, st: &mut State) {
     }
     let t = times(g, pe);
     if t.greet_ev >= 0 {
-        let pulls = evs(g, pe, Dir::Up, &[Kind::Pull]).len();
-        // one for the greeting, one per datum that was delivered while the source was still live
-        let want = 1 + evs(g, pe, Dir::Down, &[Kind::Data]).len();
+        // one Pull from inside the greeting and one from inside every datum - except a datum during
+        // whose callback the source ended (the callback may feed back into the source; the end then
+        // arrives inside the delivery but not inside for_each's own Pull for it): nothing may be
+        // sent to the source any more
+        let pulls_up = evs(g, pe, Dir::Up, &[Kind::Pull]);
+        let mut frames: Vec<usize> = vec![t.greet_ev as usize];
+        frames.extend(evs(g, pe, Dir::Down, &[Kind::Data]));
+        let mut want = 0usize;
+        for d in frames.iter() {
+            let mine: Vec<usize> = pulls_up.iter().copied().filter(|p| g.events[*p].parent == *d as i32).collect();
+            let ended_in_callback = t.dterm_ev >= 0
+                && t.dterm_in > g.events[*d].t_in
+                && t.dterm_in < g.events[*d].t_out
+                && !mine.iter().any(|p| within(g, t.dterm_ev as usize, *p));
+            if !ended_in_callback {
+                want += 1;
+            }
+        }
+        let pulls = pulls_up.len();
         if pulls != want {
-            report(g, st, &["C04"], "for_each-pull-count", "for_each", pe, -1, format!("for_each sent {} Pulls for a greeting and {} data", pulls, want - 1));
+            report(g, st, &["C04"], "for_each-pull-count", "for_each", pe, -1, format!("for_each sent {} Pulls; a greeting and {} data, of which {} were delivered while the source was still running when the callback returned", pulls, frames.len() - 1, want.saturating_sub(1)));
         }
         if t.uterm_ev >= 0 {
             report(g, st, &["C04"], "for_each-disposed-its-source", "for_each", pe, t.uterm_ev, String::new());
